@@ -270,6 +270,7 @@ def check_C18_live(ex, sub=None):
     out = []
     prev_rho = None
     n_updates = 0
+    last_after = None
     for t, tr in enumerate(ex.trials):
         if tr.filter_after is None or tr.penalty is None:
             continue
@@ -287,6 +288,10 @@ def check_C18_live(ex, sub=None):
         if tr.filter_before is not None:
             # one step of the reference set model from the state the live filter was in
             b_ents, b_rho, pair = tr.filter_before
+            if last_after is not None and (sorted(b_ents) != sorted(last_after[0]) or b_rho != last_after[1]):
+                # between two of its own operations nobody else changes the filter
+                out.append(V(P, "live-continuity", "before trial %d the live filter holds %d entries / penalty %r, after its previous operation it held %d / %r" % (t, len(b_ents), b_rho, len(last_after[0]), last_after[1]), sub, ctx))
+                return out
             if all(math.isfinite(v) for v in pair) and all(math.isfinite(a) and math.isfinite(b) for (a, b) in b_ents):
                 refuse = any(a <= pair[0] and b <= pair[1] for (a, b) in b_ents)
                 if refuse != vetoed:
@@ -319,6 +324,7 @@ def check_C18_live(ex, sub=None):
                 out.append(V(P, "live-rho", "acceptance at trial %d changed the filter's penalty %r -> %r" % (t, prev_rho, frho), sub, ctx))
                 return out
         prev_rho = frho
+        last_after = (list(ents), frho)
     return out
 
 
